@@ -249,6 +249,13 @@ class Run:
             for f in futs:
                 chunk, rej, done, finished, out = f.result()
                 if not finished or done is None:
+                    if rej:
+                        # TLC stopped on an observation it could not evaluate (an index out of a table's domain, ...) AFTER
+                        # reporting genuine REJECTs on the same trace: those verdicts stand; the rest of the chunk is unexamined
+                        log("WARNING: %s stopped early on %s after %d REJECT(s); keeping them" % (module, os.path.basename(chunk), len(rej)))
+                        rejects.extend(rej)
+                        rejects.append({"name": "%s.trace.evaluation-stopped-early" % self.pid, "line": 0, "key": os.path.basename(chunk), "chunk": chunk})
+                        continue
                     raise Infra("trace validation of %s by %s did not finish:\n%s" % (chunk, module, out[-3000:]))
                 if done[0] != done[1]:
                     raise Infra("trace %s not fully consumed by %s: %s of %s lines (an event no action accepts?)\n%s"
